@@ -41,3 +41,32 @@ SPECS["C20"] = {
     "assumptions": ["reference encoder written in the harness from the Unicode standard",
                     "JSON::Parse is given an exact-size heap buffer under AddressSanitizer"],
 }
+
+
+# ---------------------------------------------------------------------------------------------- C09
+def plan_c09(tier, seed):
+    if tier == "quick":
+        return checks("main", 8, 40000)
+    return checks("main", 14, 600000) + checks("nohook_avx2", 2, 300000)
+
+
+SPECS["C09"] = {
+    "builds": {
+        "main": Build("main", "harness/c09_strtonum.cpp"),
+        "nohook_avx2": Build("nohook_avx2", "harness/c09_strtonum.cpp", simd="avx2", hook=False),
+    },
+    "default_build": "main",
+    "plan": plan_c09,
+    "rule": ("case = numeral text built by construction from [+-]?digits(.digits)?([eE][+-]?digits)? in 14 classes (small integers, 2^63/2^64 "
+             "boundaries +-3, decimals, integer+exponent, up to 700-digit strings, leading fraction zeros, %e spellings of random finite doubles "
+             "incl. subnormals, exact midpoints between adjacent doubles (up to ~770 digits), overflow region 1e285..1e340, subnormal region, "
+             "zero mantissas with exponents, and the listed malformed forms), placed after a prefix and before a terminator in an exact-size heap "
+             "buffer of 1/2/4-byte units; non-trivial = has fraction or exponent, or >= 19 digits, or malformed; distinct by full case text"),
+    "engine": "rapidcheck",
+    "technique": "property-based testing (rapidcheck) with a differential oracle: glibc strtod (correctly rounded) and exact decimal-string integer comparison",
+    "level_text": ("Generated numerals are converted by Digit::StringToNumber and compared with strtod on the same text (<= 1 ulp in ordered-bit distance, "
+                   "sign incl. -0), exact integers by decimal string, consumed length, overflow => NaN kind or infinity, malformed => rejected. "
+                   "Sampling, not proof: the numeral space is infinite; the generator is biased to the boundaries the property names."),
+    "level_note": "trusts glibc strtod as the correctly rounded reference and the in-harness exact midpoint expansion (bigdec.hpp)",
+    "assumptions": ["glibc strtod is correctly rounded", "numerals whose correctly rounded value is 0 with a non-zero mantissa (below the smallest subnormal) are outside the quantifier and discarded"],
+}
